@@ -73,16 +73,17 @@ CHECKS = {
     ),
     "C09": dict(
         engine="pyvc",
-        technique="contract-based deductive verification at two levels: compact's loops verified over the abstraction (sorted by the sort key, pairwise unrelated, an unchanged pass skips no group) with callees by contract; the ordering lemmas it uses (adjacency, order, transfer, key injectivity, stride / first-child / sort-key contracts) discharged at bit level under the key re-read from the source",
+        technique="contract-based deductive verification at two levels: compact's loops verified over the abstraction (sorted by the sort key, pairwise unrelated, an unchanged pass skips no group) with callees by contract; the ordering lemmas it uses (adjacency, order, transfer, key injectivity, stride / first-child / sort-key contracts) discharged at bit level under the key re-read from the source; the uniqueness lemma A10 checked by the Lean 4 kernel (lean/A10.lean) with its hypotheses discharged as bridge obligations",
         category="proof",
         text=("For every list of valid, pairwise non-ancestral cells (duplicates allowed): the output of the real compact is strictly increasing in the key the code sorts by (so each cell "
               "occurs once), pairwise unrelated, and contains no complete contiguous sibling group (loop invariants on both loops; last pass unchanged => nothing skipped); a list lemma shows "
               "that in such a list a complete group that is a subset is contiguous, so no complete group of 4, 5 or 12 is left at all. The input is consumed only through sorted(set(cells)), "
               "so order and duplication cannot matter. Hypotheses used at loop level are discharged at bit level for every level r = 0..29 with all positions symbolic over the real "
-              "_hierarchy_key, is_first_child, get_stride, cell_to_parent. Canonicity / idempotence then follow with C08 and the paper lemma A10 (unique group-free antichain per region); "
+              "_hierarchy_key, is_first_child, get_stride, cell_to_parent. Canonicity / idempotence then follow with C08 and lemma A10 (unique group-free antichain per region), which the Lean 4 kernel checks on every run "
+              "(lean/A10.lean, theorem unique_R; its hypotheses U2, RU, HC are the bridge/* obligations of this check, U1 is C06/parent[res=r,to=r]); the final instantiation is on paper; "
               "a bounded native check of the whole predicate on a structured antichain pool runs as an additional labelled stand-in."),
         design_ref="DESIGN.md sections 8, 15 / C09",
-        note=PYVC_NOTE + " Loop level: ints mathematical, RES/FIRSTC/STRIDEF/PAR1/KEYF/REL uninterpreted; builtin contract of sorted(set(), key) assumed (strictly increasing enumeration of the element set); A10 on paper.",
+        note=PYVC_NOTE + " Loop level: ints mathematical, RES/FIRSTC/STRIDEF/PAR1/KEYF/REL uninterpreted; builtin contract of sorted(set(), key) assumed (strictly increasing enumeration of the element set); A10 Lean-checked, its instantiation for a5 ids on paper.",
     ),
     "C10": dict(
         engine="pyvc",
